@@ -423,6 +423,7 @@ func (h *H[T]) C11(rc *runCtx) *Violation {
 	holding := make([]int, len(states))
 	inTransit := map[int]bool{} // handed over, not yet taken (or never taken: then held for ever)
 	recycles := 0
+	putsSoFar, getsAfterPut := 0, 0
 	for _, e := range all {
 		switch e.kind {
 		case evGet:
@@ -439,6 +440,9 @@ func (h *H[T]) C11(rc *runCtx) *Violation {
 				}
 			}
 			holder[e.obj] = e.task
+			if putsSoFar > 0 {
+				getsAfterPut++
+			}
 			if lp, ok := lastPut[e.obj]; ok {
 				recycles++
 				if lp != e.task {
@@ -473,6 +477,7 @@ func (h *H[T]) C11(rc *runCtx) *Violation {
 				holding[e.task]--
 			}
 			if !e.rejected {
+				putsSoFar++
 				lastPut[e.obj] = e.task
 				putStep[e.obj] = e.step
 			}
@@ -496,6 +501,6 @@ func (h *H[T]) C11(rc *runCtx) *Violation {
 			// never returned: the hold lasts for ever; the pool must not hand it out again
 		}
 	}
-	rc.nontrivial = g >= 2 && recycles > 0
+	rc.nontrivial = g >= 2 && getsAfterPut > 0
 	return first
 }
